@@ -38,6 +38,7 @@ class ParserState:
         "furthest_pos",
         "furthest_stack",
         "furthest_unexpected",
+        "hide_pairs",
         "input",
         "neg_pred_depth",
         "parser",
@@ -66,6 +67,9 @@ class ParserState:
         self._pos_history: list[int] = []
         self._suppress_failures = False
         self.atomic_depth = SnapshottingInt()
+        # True while the innermost `@`, `$` or `!` rule is an atomic (`@`) rule.
+        # Rules matched in that context don't produce pairs.
+        self.hide_pairs = False
         self.rule_stack = Stack[Rule | RuleFrame]()  # RuleFrame is for generated code.
         self.tag_stack: list[str] = []  # User tags are always enabled
         self.user_stack = Stack[str]()  # PUSH/POP/PEEK/DROP
@@ -192,10 +196,12 @@ class ParserState:
 
     @contextmanager
     def atomic_checkpoint(self) -> Iterator[ParserState]:
-        """A context manager that restores atomic depth on exit."""
+        """A context manager that restores atomic depth and pair hiding on exit."""
         self.atomic_depth.snapshot()
+        hide_pairs = self.hide_pairs
         yield self
         self.atomic_depth.restore()
+        self.hide_pairs = hide_pairs
 
     @contextmanager
     def suppress_failures(self) -> Iterator[ParserState]:
